@@ -426,7 +426,9 @@ func cmdCheck(args []string) int {
 				v.Harness = fn.Name()
 				violParams[len(allViol)] = jb.params
 				violGroup[len(allViol)] = g
-				if res.UsesStub {
+				if res.UsesStub || res.UsesUninterp {
+					// values of stubs / uninterpreted functions cannot be imposed on the native build:
+					// such counterexamples are confirmed by concrete re-execution in the engine
 					stubbed[len(allViol)] = true
 				}
 				allViol = append(allViol, v)
